@@ -145,7 +145,7 @@ package drpcstream
 //@   ghost after:(*Writer).Flush ferr = ret
 //@   check [C05.write-error-reported] werr != nil ==> err != nil && eventCount("call:(*Writer).Flush") == 0
 //@   check [C05.flush-error-reported] ferr != nil ==> err != nil
-//@   check [C01.flushed] err == nil ==> werr == nil && ferr == nil && eventCount("call:(*Writer).Flush") == 1
+//@   check [C01,C03.flushed] err == nil ==> werr == nil && ferr == nil && eventCount("call:(*Writer).Flush") == 1
 //@   ensures [id] s.id.Stream == old(s.id.Stream) && s.id.Message == old(s.id.Message) + 1
 
 //@ func (*Stream).terminateIfBothClosed
